@@ -106,4 +106,3 @@ func runC05(env *Env, data map[string]any) *Outcome {
 	o.Sample = map[string]any{"cmd": c.Cmd, "file": str(data, "filekind"), "outcome": short(res.Outcome, 40), "exit": res.Code}
 	return o
 }
-
